@@ -20,7 +20,7 @@ META = {
         'is recomputed or adjusted; (D4) replace without position keeps the position; (D6) "after" adds exactly '
         'one to a given position, before the insert; (D5) the delegating one-liners (__setitem__, __delitem__, '
         '__iter__, __len__, __getitem__, at, value_at, index, reverse, sort, pop_at, MetadataObject.append/extend) '
-        'have their documented normal forms; only SortableDict writes _order/_values.  Also (D5): sort/reverse may be written as a rebuild of _order from the CURRENT order (value-dict insertion order is a violation); MetadataObject.extend traverses its argument once (one-shot iterables).  Not decided: lock-step '
+        'have their documented normal forms; only SortableDict writes _order/_values.  Also (D5): sort/reverse may be written as a rebuild of _order from the CURRENT order (value-dict insertion order is a violation); MetadataObject.extend traverses its argument once (one-shot iterables).  Also (D5): overridden MutableMapping methods (items/keys/values) pair each key of _order with its own value; sort with an explicit signature passes key and reverse to list.sort (sort-then-reverse is not the stable descending sort).  Not decided: lock-step '
         'equality with a reference ordered map as an execution.'),
     'rule_text': 'obligations = paths of add_item x applicable facts, delegation normal forms, who-may-write sites',
     'trusted_base': ['list.insert/append/remove/index and dict semantics; MutableMapping mixin methods reduce to the '
